@@ -341,3 +341,51 @@ Proof.
   - vm_compute. tauto.
 Qed.
 Print Assumptions C11_pool_compress_sites_ok.
+
+
+(* ---- vhost muxer accept path (https, tcpmux): Muxer.handle goroutines, the unbuffered Listener.accept, the
+        proxy's accept loop, Listener.Close as a concurrent action ---- *)
+
+(* every schedule: a routed connection still in the hand-off has its handle goroutine standing in the send;
+   a handle goroutine that has ended left the connection delivered to Accept or closed *)
+Theorem C11_vhost_conn_delivered_or_closed : forall cfg sched u,
+  let s := v_exec cfg sched in
+  (vs_fate s u = VhPending -> vs_thr s u = Some VhSending) /\
+  (vs_thr s u = Some VhEnd ->
+     vs_fate s u = VhHandled \/ vs_fate s u = VhClosedNoRoute \/ vs_fate s u = VhClosedOnFail).
+Proof. exact vhost_conn_delivered_or_closed. Qed.
+Print Assumptions C11_vhost_conn_delivered_or_closed.
+
+(* ... and the send never stays blocked: once Close has run the waiting dispatcher is released and closes the
+   connection; while the listener is open a running accept loop takes the sender its receive picks *)
+Theorem C11_vhost_pending_progress : forall cfg s u,
+  vs_fate s u = VhPending -> vs_thr s u = Some VhSending ->
+  (vc_close_releases cfg = true -> vs_chclosed s = true -> vs_fate (v_step cfg s u) u = VhClosedOnFail) /\
+  (forall t, vs_thr s t = Some VhLRun -> vs_chclosed s = false -> vc_pick cfg (vs_tick s) = u ->
+     vs_fate (v_step cfg s t) u = VhHandled).
+Proof. exact vhost_pending_progress. Qed.
+Print Assumptions C11_vhost_pending_progress.
+
+(* reflective (T11send/paths): in today's Muxer.handle the one send on Listener.accept is recover-wrapped and
+   Listener.Close closes that channel (or it is a select case next to a receive from a channel Close closes) *)
+Theorem C11_vhost_handoff_today :
+  gen_vhost_handle_found = true /\ gen_vhost_handoff_released_by_close = true.
+Proof. vm_compute. split; reflexivity. Qed.
+Print Assumptions C11_vhost_handoff_today.
+
+(* regression witness (seeded change "Close closes a new closeCh, handle does a plain blocking send"): two users
+   in the hand-off, the listener closes, however often their goroutines are scheduled they stay in the send *)
+Theorem C11_vhost_blocking_send_refuted :
+  let s := v_exec {| vc_reqs := [VhConn; VhConn; VhLoop; VhCloser]; vc_pick := fun _ => 0%nat; vc_close_releases := false |}
+                  (List.app [0; 1; 3; 3; 2]%nat (List.concat (repeat [0; 1; 2]%nat 20))) in
+  vs_fate s 0%nat = VhPending /\ vs_fate s 1%nat = VhPending /\ vs_thr s 2%nat = Some VhLEnd /\ vs_chclosed s = true.
+Proof. vm_compute. repeat split; reflexivity. Qed.
+Print Assumptions C11_vhost_blocking_send_refuted.
+
+(* ---- the bound as configured: legacy ini ----
+   reflective (T11send/paths) over pkg/config/legacy: the v1 server maximum is assigned exactly once, from the
+   legacy field whose ini key is max_pool_count; the v1 client poolCount from the field with key pool_count.
+   With C11_generated_pool_code_bounded: the bound NewControl enforces is the configured one, toml or ini. *)
+Theorem C11_legacy_pool_conversion_today : legacy_pool_fields_ok gen_legacy_pool_fields = true.
+Proof. vm_compute. reflexivity. Qed.
+Print Assumptions C11_legacy_pool_conversion_today.
